@@ -409,6 +409,17 @@ def replay(data: dict[str, Any]) -> tuple[bool, str]:
         problems.append("left remote / right lan net")
     if rt == "custom" and lt != "custom" and R.get("vpnconn_lan_net") != "10.20.0.0":
         problems.append("right lan net")
+    if rt == "custom" and L.get("vpnconn_remote_netmask") != R.get("vpnconn_lan_netmask"):
+        problems.append(f"left remote netmask {L.get('vpnconn_remote_netmask')} / right lan netmask {R.get('vpnconn_lan_netmask')}")
+    if lt == "nic" and L.get("vpnconn_lan_netmask") != R.get("vpnconn_remote_netmask"):
+        problems.append(f"left lan netmask {L.get('vpnconn_lan_netmask')} / right remote netmask {R.get('vpnconn_remote_netmask')}")
+    if lt == "custom" and rt == "custom":
+        if (L.get("vpnconn_lan_net"), L.get("vpnconn_lan_netmask")) != ("172.16.0.0", "255.255.0.0"):
+            problems.append("left lan is not the custom lnet/lmask")
+        if (R.get("vpnconn_lan_net"), R.get("vpnconn_lan_netmask")) != ("172.17.0.0", "255.255.255.0"):
+            problems.append("right lan is not the custom rnet/rmask")
+        if (tun.right_net.net_ip, tun.right_net.netmask) != ("172.17.0.0", "255.255.255.0") or (tun.left_net.net_ip, tun.left_net.netmask) != ("172.16.0.0", "255.255.0.0"):
+            problems.append(f"tunnel networks {tun.left_net.net_ip}/{tun.left_net.netmask} - {tun.right_net.net_ip}/{tun.right_net.netmask} are not the custom ones")
     if combo["peer"] == "ip" and L.get("vpnconn_peer_ip") != nodes[1].interfaces[nodes[1].params["internet_nic"]].ip:
         problems.append("left peer ip")
     if R.get("vpnconn_peer_ip") != nodes[0].interfaces[nodes[0].params["internet_nic"]].ip:
